@@ -1,11 +1,12 @@
 ----------------------------- MODULE GenTcpFail -----------------------------
-(* Histories with write failures on TCP connections (C06/C09: a connection failure at send demotes the server and
+(* Histories with failures of TCP connections (C06/C09: a connection failure at send or at recv demotes the server and
    requeues what was on the connection; C10/C20: socket protocol under the same faults): requests over TCP, the
-   connection possibly already established and idle, one or two requests queued, the next write failing (connection
-   reset), with and without the deferred-write notification, then the answers and remaining deadlines.           *)
+   connection possibly already established and idle, one or two requests queued; then either the next write fails
+   (connection reset), with and without the deferred-write notification, or the requests are written and the server
+   closes the connection / the next read fails before any answer was read; then the answers and remaining deadlines. *)
 EXTENDS Naturals, Integers, Sequences, FiniteSets, TLC, Json
 CONSTANTS Cfgs
-VARIABLES cfg, warm, nq, done
+VARIABLES cfg, warm, nq, mode, done
 Name(t) == "n" \o ToString(t) \o ".test"
 Q(t) == [op |-> "query", t |-> t, name |-> Name(t), qt |-> 1]
 R(t) == [op |-> "reply", tx |-> "name:n" \o ToString(t) \o ".", kind |-> "ok", deliver |-> 0]
@@ -15,11 +16,15 @@ PW == IF "pendwrite" \in DOMAIN cfg /\ cfg.pendwrite = 1 THEN <<[op |-> "pendwri
 Warm == <<Q(9)>> \o PW \o <<Drain, R(9), Drain>>                               \* establishes (and with stay-open keeps) a connection
 FailNext == IF warm = 1 THEN <<[op |-> "wscript", script |-> <<-2>>]>>        \* on the established connection
             ELSE <<[op |-> "wscript", default |-> 1, script |-> <<-2>>]>>     \* on the connection about to be opened
-Hist == (IF warm = 1 THEN Warm ELSE <<>>) \o FailNext
-        \o (IF nq = 1 THEN <<Q(1)>> ELSE <<Q(1), Q(2)>>) \o PW \o <<Drain>>
-        \o (IF nq = 1 THEN <<R(1)>> ELSE <<R(1), R(2)>>) \o <<Drain>> \o Tmo \o Tmo
-GInit == cfg \in Cfgs /\ warm \in {0, 1} /\ nq \in {1, 2} /\ done = FALSE
-GNext == ~done /\ done' = TRUE /\ UNCHANGED <<cfg, warm, nq>>
+Qs == IF nq = 1 THEN <<Q(1)>> ELSE <<Q(1), Q(2)>>
+Rs == IF nq = 1 THEN <<R(1)>> ELSE <<R(1), R(2)>>
+RecvFault == IF mode = "peerclose" THEN <<[op |-> "peerclose"]>>                   \* the read that follows returns end of stream
+             ELSE <<[op |-> "failnext", what |-> "recvfrom"], [R(1) EXCEPT !.deliver = 1]>>   \* the read of the first answer fails
+Hist == IF mode = "write"
+        THEN (IF warm = 1 THEN Warm ELSE <<>>) \o FailNext \o Qs \o PW \o <<Drain>> \o Rs \o <<Drain>> \o Tmo \o Tmo
+        ELSE (IF warm = 1 THEN Warm ELSE <<>>) \o Qs \o PW \o <<Drain>> \o RecvFault \o <<Drain>> \o Rs \o <<Drain>> \o Tmo \o Tmo
+GInit == cfg \in Cfgs /\ warm \in {0, 1} /\ nq \in {1, 2} /\ mode \in {"write", "peerclose", "recverr"} /\ done = FALSE
+GNext == ~done /\ done' = TRUE /\ UNCHANGED <<cfg, warm, nq, mode>>
 Emit == PrintT(ToJson([cfg |-> cfg, steps |-> Hist]))
 TcpFailCfgs == { [nsrv |-> n, tries |-> 2, timeout |-> 1000, seed |-> 1, usevc |-> 1, stayopen |-> so, pendwrite |-> pw, rotate |-> ro] :
                  n \in {1, 2}, so \in {0, 1}, pw \in {0, 1}, ro \in {0, 1} }
